@@ -117,7 +117,7 @@ pub fn test_case(c: &ClockCase, stats: &mut Stats) -> Result<(), String>
 /// swaps and reverts, clean-then-build, identical contents in different places
 fn biased_graph(max_rules: usize) -> impl Strategy<Value = GraphSpec>
 {
-    (gen::graph_spec(max_rules, false), any::<u8>()).prop_map(|(mut g, style)|
+    (gen::graph_spec(max_rules, true), any::<u8>()).prop_map(|(mut g, style)|
     {
         g.n_leaves = g.n_leaves.max(2);
         if style % 2 == 0
@@ -151,7 +151,7 @@ fn biased_graph(max_rules: usize) -> impl Strategy<Value = GraphSpec>
 
 fn ops_biased(max_ops: usize) -> impl Strategy<Value = Vec<Op>>
 {
-    let mix = OpMix { rule_edits: false, ruler_dir_damage: false, cleans: true, delete_leaf: false, swaps: 8 };
+    let mix = OpMix { rule_edits: false, ruler_dir_damage: false, cleans: true, delete_leaf: true, swaps: 8 };
     prop_oneof![
         1 => gen::ops(mix, max_ops),
         1 => (any::<u16>(), any::<u16>(), gen::ops(mix, max_ops / 2), prop_oneof![2 => Just(None), 1 => any::<u16>().prop_map(Some)]).prop_map(|(a, b, tail, goal)|
